@@ -29,7 +29,7 @@ Contract(
         ("other_registers_untouched", "forall(Ref('EdgeRegister'), lambda r: implies(r != self, r._registry == old(r._registry)))"),
     ],
     frame=["EdgeRegister._registry"],
-    props=["C16"],
+    props=["C16", "C09"],
     extra_names={"STR": STR, "INT": INT},
     assumes=["TestNode.bridged_form is a pure function of the node (summary); strings are unicode sequences"],
 )
